@@ -25,10 +25,6 @@ structure TSUnit where
   sectionsEnd : Nat := 0
   deriving Inhabited
 
-/-- stuffing adaptation field of adaptation_field_length `l` in delivered form -/
-def stuffAF (l : Nat) : PacketAdaptationField :=
-  if l = 0 then { length := 0, isOneByteStuffing := true } else { length := l, stuffingLength := l - 1 }
-
 def splitChunks (bs : Bytes) : List Nat → List Bytes
   | [] => []
   | n :: r => bs.take n :: splitChunks (bs.drop n) r
